@@ -38,6 +38,21 @@ def floors(tier):
 
 
 def gen_case(rng, tier, idx):
+    if rng.random() < 0.08:
+        # the window clause holds for EVERY list a Hexital keeps: the base list and each member-timeframe list, also when the lifespan is
+        # shorter than a member's timeframe. Candles arrive through append only (members seeded at construction: recorded C08 finding).
+        n = rng.randint(60, 160)
+        a_ = rng.choice([2, 5, 10])
+        tfs = [f"T{a_}", f"T{a_ * rng.choice([2, 3, 6])}"]
+        life = rng.choice([60 * a_ // 2, 60 * a_, 60 * a_ * 2, 60 * a_ * 4, 60 * a_ * 12]) + rng.choice([0, 1, 30])
+        rows = streams.make_rows(rng, n, "walk", 60, rng.choice(["regular", "regular", "gaps"]), 60 * a_, max_gap_buckets=6)
+        chunks, left = [], n
+        while left > 0:
+            c = min(left, rng.choice([1, 1, 1, 2, 3, 7]))
+            chunks.append(c)
+            left -= c
+        return {"mode": "hexital_window", "cfg": {"cls": "EMA", "kw": {"period": 2}}, "member_tfs": tfs, "rows": rows, "lifespan_s": life, "generous": False,
+                "tfkind": "hexital", "schedule": {"preload": 0, "precalc": False, "chunks": chunks, "enc": "candle"}}
     cfg = configs.rand_config(rng, max_period=12)
     generous = rng.random() < 0.6
     tfkind = rng.choice(["none", "collapse", "collapse_fill"])
@@ -121,7 +136,50 @@ def gen_case(rng, tier, idx):
     return {"cfg": cfg, "rows": rows, "schedule": sch, "lifespan_s": lifespan, "generous": generous, "tfkind": tfkind}
 
 
+def run_hexital_window(case):
+    from hexital import EMA, Hexital
+    rows, sch = case["rows"], case["schedule"]
+    life = timedelta(seconds=case["lifespan_s"])
+    stats = {"classes_seen": ["Hexital"], "modes": {"hexital_window": 1}, "tfkinds": {"hexital": 1}, "candlestick": {"none": 1}}
+    viol, trimmed_total = [], 0
+
+    def members():
+        return [EMA(period=2)] + [EMA(period=2, timeframe=t) for t in case["member_tfs"]]
+
+    try:
+        a = Hexital("a", [], members(), candles_lifespan=life)
+        b = Hexital("b", [], members())
+        pos = 0
+        for size in sch["chunks"]:
+            a.append(encode_chunk(rows, pos, size, "candle"))
+            b.append(encode_chunk(rows, pos, size, "candle"))
+            pos += size
+            la, lb = dict(a.get_candles()), dict(b.get_candles())
+            for ln, full_ in lb.items():
+                if not full_:
+                    continue
+                newest = full_[-1].timestamp
+                want = [c.timestamp for c in full_ if not c.timestamp < newest - life]
+                got = [c.timestamp for c in la.get(ln, [])]
+                stats["window_checks"] = stats.get("window_checks", 0) + 1
+                stats["hexital_list_window_checks"] = stats.get("hexital_list_window_checks", 0) + 1
+                trimmed_total = max(trimmed_total, len(full_) - len(want))
+                if got != want:
+                    viol.append({"monitor": "window-oracle", "sig": f"C15|window|hexital|{'member-tf' if ln != 'default' else 'base'}",
+                                 "detail": f"after {pos} rows, Hexital lifespan {life}, list {ln!r}: retained {len(got)} [{got[0] if got else None}..] expected {len(want)} [{want[0]}..], newest {newest}"})
+                    break
+            if viol:
+                break
+    except Exception as e:
+        viol.append({"monitor": "exception", "sig": f"C15|raises|Hexital|{type(e).__name__}", "detail": repr(e)[:400]})
+    stats["trimmed_candles"] = trimmed_total
+    return {"violations": viol, "nontrivial": trimmed_total >= 1 and schedules.n_appends(sch) >= 2, "stats": stats,
+            "sample": {"mode": "hexital_window", "member_tfs": case["member_tfs"], "lifespan_s": case["lifespan_s"], "n_rows": len(rows)}}
+
+
 def run_case(case):
+    if case.get("mode") == "hexital_window":
+        return run_hexital_window(case)
     cfg, rows, sch = case["cfg"], case["rows"], case["schedule"]
     cls = cfg["cls"] if cfg["cls"] != "Amorph" else f"Amorph:{cfg['analysis']}"
     stats = {"classes_seen": [cls], "modes": {case.get("mode") or ("generous" if case["generous"] else "tight"): 1}, "tfkinds": {case["tfkind"]: 1},
